@@ -1180,7 +1180,7 @@ def solve_degenerate(tier="quick", seed=0, only=None):
     }
     failures, cases = [], 0
     names = list(D)
-    reporting = [dict(), dict(report_rcond=True), dict(report_rcond=True, collect_path=True, display_interval=0.0)]
+    reporting = [dict(), dict(report_rcond=True), dict(report_rcond=True, collect_path=True, display_interval=0.0), dict(deriv_check=enum("DerivCheck", "CheckAll"))]
     for name in names:
         mk, x0 = D[name]
         for ss in STEP_SOLVERS:
@@ -1195,7 +1195,7 @@ def solve_degenerate(tier="quick", seed=0, only=None):
                     cases += 1
                     if rec.exc is not None:
                         msg = str(rec.exc)
-                        ok = type(rec.exc) is Exception and msg.startswith(("Inverse step size", "Failed to evaluate initial iterate", "Line search failed", "Derivative check failed"))
+                        ok = (type(rec.exc) is Exception and msg.startswith(("Inverse step size", "Failed to evaluate initial iterate", "Line search failed", "Derivative check failed"))) or type(rec.exc).__name__ == "DerivError"  # (the checker's own, deliberate error)
                         if not ok:
                             failures.append(dict(label=f"C06:internal_error_escapes_solve:{type(rec.exc).__name__}", input=inp, observed=f"{type(rec.exc).__name__}: {msg[:200]}"))
                         continue
